@@ -189,10 +189,18 @@ def check_fit(item, acc):
                 def run(ch):
                     m = HyMMSBM(K=K, u=None if u0 is None else np.array(u0, dtype=float), w=None if w0 is None else np.array(w0, dtype=float),
                                 assortative=assort, max_hye_size=mhs, u_prior=u_prior, w_prior=w_prior, seed=0)
+                    def shaped(shape):
+                        # initial values of the right SIZE (a (K,K) / (N,K) matrix, or the same numbers requested as a flat vector)
+                        shape = tuple(np.atleast_1d(shape).astype(int).tolist()) if not isinstance(shape, tuple) else shape
+                        if shape == (K, K) or (len(shape) == 1 and shape[0] == K * K and K != N):
+                            return [np.array(x).reshape(shape) for x in W_MENU[K]]
+                        if shape == (K,):
+                            return [np.diag(np.array(x)) for x in W_MENU[K]]
+                        return [np.array(x).reshape(shape) for x in u_menu(N, K)]
+
                     m._rng = CH.FakeGenerator(ch, np, tag="model", menus={
-                        "random": lambda shape: ([np.array(x) for x in W_MENU[K]] if tuple(shape) == (K, K) else [np.array(x) for x in u_menu(N, K)]),
-                        "exponential": lambda scale, size: ([np.array(x) for x in W_MENU[K]] if np.shape(scale) == (K, K)
-                                                            else ([np.diag(np.array(x)) for x in W_MENU[K]] if np.shape(scale) == (K,) else [np.array(x) for x in u_menu(N, K)])),
+                        "random": lambda shape: shaped(shape),
+                        "exponential": lambda scale, size: shaped(np.shape(scale) if np.shape(scale) else size),
                     })
                     uu, ww = m.u, m.w
                     ucopy = None if uu is None else uu.copy()
